@@ -112,6 +112,9 @@ package format
 //@   call NewWrappedBase64Encoder#1 requires arg0 == b64 && arg1 == w                                             [C05 C07]
 //@   call WrappedBase64Encoder).Write#1 requires same(arg1, r.Body)                                               [C03 C05 C07]
 //@   ensures#append hasprefix(w.$out, old(w.$out))                                                                [C13 C16]
+//@   loop 1 invariant#noerr lasterr("io.WriteString",1) == nil && lasterr("Writer).Write",1) == nil
+//@   ensures#errs err == nil ==> lasterr("Writer).Write",1) == nil && lasterr("io.WriteString",1) == nil && lasterr("io.WriteString",2) == nil && lasterr("WrappedBase64Encoder).Write",1) == nil && lasterr("WrappedBase64Encoder).Close",1) == nil && lasterr("io.WriteString",3) == nil   [C13]
+//@   ensures#allran err == nil ==> calls("WrappedBase64Encoder).Write",1) == old(calls("WrappedBase64Encoder).Write",1)) + 1 && calls("WrappedBase64Encoder).Close",1) == old(calls("WrappedBase64Encoder).Close",1)) + 1 && calls("io.WriteString",3) == old(calls("io.WriteString",3)) + 1   [C13]
 //@   modifies w.$out, w.$wn
 
 //@ func (*Header).MarshalWithoutMAC(h, w) (err)
@@ -121,6 +124,10 @@ package format
 //@   call io.WriteString#1 requires arg0 == w && arg1 == "age-encryption.org/v1\n"                                [C05 C07]
 //@   call Marshal#0 requires arg1 == w                                                                            [C03 C05 C07]
 //@   assumes#out err == nil ==> w.$out == cat(old(w.$out), hdrbytes(h))                                          [C03 C05 C07]
+//@   loop 1 invariant#noerr lasterr("Marshal",1) == nil && lasterr("io.WriteString",1) == nil
+//@   ensures#errs err == nil ==> lasterr("io.WriteString",1) == nil && lasterr("Marshal",1) == nil && lasterr("fmt.Fprintf",1) == nil && calls("fmt.Fprintf",1) == old(calls("fmt.Fprintf",1)) + 1   [C13]
+//@   ensures#every err == nil ==> calls("Marshal",1) == old(calls("Marshal",1)) + len(h.Recipients)               [C03 C13]
+//@   loop 1 invariant#count calls("Marshal",1) == old(calls("Marshal",1)) + rangeindex + 1                      [C03 C13]
 //@   modifies w.$out, w.$wn
 
 //@ func (*Header).Marshal(h, w) (err)
@@ -128,6 +135,7 @@ package format
 //@   call MarshalWithoutMAC#1 requires arg0 == h && arg1 == w                                                     [C03 C05 C07]
 //@   call EncodeToString#1 requires same(arg1, h.MAC)                                                             [C03 C05 C07]
 //@   ensures#out err == nil ==> w.$out == cat(old(w.$out), hdrbytes(h), " ", b64raw(bytes(h.MAC)), "\n")          [C03 C05 C07]
+//@   ensures#errs err == nil ==> lasterr("MarshalWithoutMAC",1) == nil && lasterr("fmt.Fprintf",1) == nil && calls("fmt.Fprintf",1) == old(calls("fmt.Fprintf",1)) + 1   [C13]
 //@   assumes#count $hmarshal == old($hmarshal) + 1
 //@   modifies w.$out, w.$wn, $hmarshal
 
